@@ -650,7 +650,7 @@ func c14Chain(c *Ctx) {
 					status = sv
 				}
 			}
-			if bo.X == ssa.Value(fn.Params[1]) {
+			if sameParam(bo.X, fn.Params[1]) {
 				phaseGuard = true
 			}
 		}
@@ -665,7 +665,7 @@ func c14Chain(c *Ctx) {
 		// right after the phase test) to the function's return avoids it
 		armSure := true
 		for _, g := range guardsAt(b) {
-			if bo, ok := g.Cond.(*ssa.BinOp); ok && bo.X == ssa.Value(fn.Params[1]) && g.True {
+			if bo, ok := g.Cond.(*ssa.BinOp); ok && sameParam(bo.X, fn.Params[1]) && g.True {
 				entry := g.If.Block().Succs[0]
 				if existsPathFrom(entry, isReturn, func(x ssa.Instruction) bool { return x == at }) != nil {
 					armSure = false
